@@ -49,12 +49,17 @@ def gen_program(rng, nfiles, maxreq):
                     ops.append(("write", f, rng.randbytes(rng.randrange(1, 3))))
                     if rng.random() < 0.1:
                         ops.append(("serve", rng.randrange(1, 40)))
+                        if rng.random() < 0.5:
+                            ops.append(("deliver", rng.randrange(1, 40)))
             else:
                 ops.append(("write", f, rng.randbytes(rng.choice([0, 1, maxreq, maxreq + 1, rng.randrange(0, 3 * maxreq + 2)]))))
         elif r < 0.65:
             ops.append(("sync",))
         elif r < 0.8:
             ops.append(("serve", rng.randrange(0, 6)))
+            if rng.random() < 0.6:
+                # answers are matched by id: let a newer one overtake (newest-first included)
+                ops.append(("deliver", rng.choice([1, 1, 2, 3, 5])))
         elif r < 0.88:
             ops.append(("pipe", f, rng.randrange(2)))
         else:
@@ -99,6 +104,7 @@ def lockstep_case(rng, nfiles, maxreq, wfaults, sfaults, ops):
             for i in range(nfiles):
                 f = sess.client.open("/f%d" % i, "wb")
                 f.MAX_REQUEST_SIZE = maxreq
+                f._prefetch_lock = L.SpinGuard()
                 files.append(f)
         except L.Hang:
             return [("hang", "while opening the files")], [], None
@@ -123,6 +129,8 @@ def lockstep_case(rng, nfiles, maxreq, wfaults, sfaults, ops):
                     for _ in range(op[1]):
                         if not sess._serve_one():
                             break
+                elif op[0] == "deliver":
+                    L.deliver_first(sess, op[1])
             except L.Hang:
                 res = "hang"
             except Exception as e:
@@ -186,6 +194,8 @@ def op_line(op):
         return "op close %d" % op[1]
     if op[0] == "pipe":
         return "op pipe %d %d" % (op[1], op[2])
+    if op[0] == "deliver":
+        return "op deliver %d" % op[1]
     return "op serve %d" % op[1]
 
 
